@@ -35,6 +35,7 @@ Proof. reflexivity. Qed.
 Theorem chooser_in prios ps parent : ps <> [] -> In (selectLocation prios ps parent) ps.
 Proof.
   intros Hne. unfold selectLocation. destruct ps as [|x [|y r]]; [congruence|simpl; auto|].
+  destruct (str_mem internal_loc (x :: y :: r)) eqn:Ei; [apply str_mem_In; exact Ei|].
   destruct (first_possible _ _) eqn:E.
   - apply fp_sound in E. tauto.
   - simpl; auto.
@@ -46,55 +47,53 @@ Proof.
   intros Hne. split; [apply chooser_in; assumption|].
   unfold selectLocation. destruct ps as [|x [|y r]]; [congruence| |].
   - (* one declaring service: every clause can only name it *)
-    repeat split.
-    + intros p Hp. apply fp_sound in Hp. destruct Hp as [[<-|[]] _]. reflexivity.
-    + intros _ [<-|[]]. reflexivity.
+    split; [intros [<-|[]]; reflexivity|]. split.
+    + intros _ p Hp. apply fp_sound in Hp. destruct Hp as [[<-|[]] _]. reflexivity.
     + intros _ _ [<-|[]]. reflexivity.
-  - set (ps := x :: y :: r). rewrite fp_app. repeat split.
-    + intros p Hp. rewrite Hp. reflexivity.
-    + intros Hn Hpar. rewrite Hn, fp_two.
-      apply str_mem_In in Hpar. rewrite Hpar. reflexivity.
-    + intros Hn Hnpar Hint. rewrite Hn, fp_two.
-      destruct (str_mem parent ps) eqn:E; [apply str_mem_In in E; contradiction|].
-      apply str_mem_In in Hint. rewrite Hint. reflexivity.
+  - set (ps := x :: y :: r). destruct (str_mem internal_loc ps) eqn:Ei.
+    + split; [reflexivity|]. apply str_mem_In in Ei. split; intros Hn; contradiction.
+    + assert (Hni: ~ In internal_loc ps) by (intros H; apply str_mem_In in H; congruence).
+      split; [intros H; contradiction|]. rewrite fp_app. split.
+      * intros _ p Hp. rewrite Hp. reflexivity.
+      * intros _ Hn Hpar. rewrite Hn, fp_two. apply str_mem_In in Hpar. rewrite Hpar. reflexivity.
 Qed.
 
-(* whenever a priority, the parent or the gateway itself offers the field, the rule leaves no choice *)
+(* whenever the gateway itself, a priority or the parent offers the field, the rule leaves no choice *)
 Theorem rule_determines prios ps parent l1 l2 :
   spec_loc prios ps parent l1 -> spec_loc prios ps parent l2 ->
-  (first_possible prios ps <> None \/ In parent ps \/ In internal_loc ps) ->
+  (In internal_loc ps \/ first_possible prios ps <> None \/ In parent ps) ->
   l1 = l2.
 Proof.
   intros (_ & A1 & B1 & C1) (_ & A2 & B2 & C2) H.
-  destruct (first_possible prios ps) as [p|] eqn:E.
-  - rewrite (A1 p eq_refl), (A2 p eq_refl). reflexivity.
-  - destruct (str_mem parent ps) eqn:Ep.
-    + apply str_mem_In in Ep. rewrite (B1 eq_refl Ep), (B2 eq_refl Ep). reflexivity.
-    + assert (Hn: ~ In parent ps) by (intros Hin; apply str_mem_In in Hin; congruence).
-      destruct H as [H|[H|H]]; [congruence|contradiction|].
-      rewrite (C1 eq_refl Hn H), (C2 eq_refl Hn H). reflexivity.
+  destruct (str_mem internal_loc ps) eqn:Ei.
+  - apply str_mem_In in Ei. rewrite (A1 Ei), (A2 Ei). reflexivity.
+  - assert (Hni: ~ In internal_loc ps) by (intros Hin; apply str_mem_In in Hin; congruence).
+    destruct (first_possible prios ps) as [p|] eqn:E.
+    + rewrite (B1 Hni p eq_refl), (B2 Hni p eq_refl). reflexivity.
+    + destruct H as [H|[H|H]]; [contradiction|congruence|].
+      rewrite (C1 Hni eq_refl H), (C2 Hni eq_refl H). reflexivity.
 Qed.
 
 Theorem spec_locb_correct prios ps parent l :
   spec_locb prios ps parent l = true <-> spec_loc prios ps parent l.
 Proof.
   unfold spec_locb, spec_loc. rewrite andb_true_iff, str_mem_In.
-  destruct (first_possible prios ps) as [p|] eqn:E.
-  - rewrite String.eqb_eq. split.
-    + intros [Hin ->]. repeat split; auto; try discriminate. intros q [= <-]. reflexivity.
-    + intros (Hin & A & _ & _). split; auto.
-  - destruct (str_mem parent ps) eqn:Ep.
-    + rewrite String.eqb_eq. apply str_mem_In in Ep. split.
-      * intros [Hin ->]. repeat split; auto; try discriminate. intros _ Hn. contradiction.
+  destruct (str_mem internal_loc ps) eqn:Ei.
+  - apply str_mem_In in Ei. rewrite String.eqb_eq. split.
+    + intros [Hin ->]. split; [exact Hin|]. split; [reflexivity|]. split; intros Hn; contradiction.
+    + intros (Hin & A & _). split; auto.
+  - assert (Hni: ~ In internal_loc ps) by (intros Hin; apply str_mem_In in Hin; congruence).
+    destruct (first_possible prios ps) as [p|] eqn:E.
+    + rewrite String.eqb_eq. split.
+      * intros [Hin ->]. split; [exact Hin|]. split; [intros H; contradiction|]. split; [intros _ q [= <-]; reflexivity|intros _ H; discriminate].
       * intros (Hin & _ & B & _). split; auto.
-    + assert (Hn: ~ In parent ps) by (intros Hin; apply str_mem_In in Hin; congruence).
-      destruct (str_mem internal_loc ps) eqn:Ei.
-      * rewrite String.eqb_eq. apply str_mem_In in Ei. split.
-        -- intros [Hin ->]. repeat split; auto; try discriminate. intros _ Hp. contradiction.
+    + destruct (str_mem parent ps) eqn:Ep.
+      * rewrite String.eqb_eq. apply str_mem_In in Ep. split.
+        -- intros [Hin ->]. split; [exact Hin|]. split; [intros H; contradiction|]. split; [intros _ q H; discriminate|reflexivity].
         -- intros (Hin & _ & _ & C). split; auto.
-      * assert (Hni: ~ In internal_loc ps) by (intros Hin; apply str_mem_In in Hin; congruence).
+      * assert (Hn: ~ In parent ps) by (intros Hin; apply str_mem_In in Hin; congruence).
         split.
-        -- intros [Hin _]. repeat split; auto; try discriminate; intros; contradiction.
+        -- intros [Hin _]. split; [exact Hin|]. split; [intros H; contradiction|]. split; [intros _ q H; discriminate|intros _ _ H; contradiction].
         -- intros (Hin & _). split; auto.
 Qed.
 
@@ -104,15 +103,14 @@ Theorem chooser_idempotent prios ps parent :
 Proof.
   unfold selectLocation. destruct ps as [|x [|y r]]; auto.
   - simpl. rewrite !fp_app. destruct (first_possible prios []); auto.
-  - set (ps := x :: y :: r). rewrite !fp_app.
+  - set (ps := x :: y :: r). destruct (str_mem internal_loc ps) eqn:Ei; [reflexivity|].
+    rewrite !fp_app.
     destruct (first_possible prios ps) eqn:EP; auto.
-    rewrite !fp_two.
+    rewrite !fp_two. rewrite Ei.
     destruct (str_mem parent ps) eqn:Epar.
     + rewrite Epar. reflexivity.
-    + destruct (str_mem internal_loc ps) eqn:Eint.
-      * rewrite Eint. reflexivity.
-      * assert (H: str_mem x ps = true) by (apply str_mem_In; simpl; auto).
-        change (hd "" ps) with x. rewrite H. reflexivity.
+    + assert (H: str_mem x ps = true) by (apply str_mem_In; simpl; auto).
+      change (hd "" ps) with x. rewrite H. reflexivity.
 Qed.
 
 (* ---- the wrapper does not matter ---- *)
